@@ -1,5 +1,191 @@
 import FcpptModel.Prelude.Proto
-/-! Driver for C07 — placeholder until the property's model is built. -/
+import FcpptModel.Spec.C07
+/-!
+Driver for C07: histories over 3 raw_vector registers and 2 buffer registers sharing one heap.
+
+```
+reset                                  start of a history: fresh registers
+end                                    end of a history: all destructors run, ledger reported
+ctor r default | count n x | range fwd|inp LIST | il LIST | move s | buf b
+push r SRC | pop r | ins1 r pos SRC | insn r pos n SRC | insr r pos fwd|inp LIST
+era1 r pos | erar r l h | resize r n SRC | reserve r n | shrink r | clear r
+swap r s | massign r s | cmp r s | obs r
+bctor b n | bresize b n | bfill b LIST | bappend b size LIST | bappendopt b size none|LIST
+bread b size LIST | bmovector b c | bswap b c | bmassign b c
+readchars count LIST                   (stateless) fcppt::io::read_chars
+```
+SRC = `v<int>` (a value) or `s<i>` (a reference to element i of the same vector); LIST = `a,b,c` or `-`.
+An operation whose precondition does not hold for the current state prints `invalid` and is not executed
+(decided by the *specification*; the harness decides with its std::vector).
+-/
 namespace Fcppt.C07.Drv
-def main : IO Unit := Fcppt.Proto.run (fun _ => "not-built")
+open Fcppt.Proto Fcppt.C07
+
+def NV : Nat := 3
+def NB : Nat := 2
+
+def g : Nat → Nat → Nat := growth
+
+def showList (l : List Int) : String := "[" ++ intList l ++ "]"
+
+def parseSrc (t : String) : Option Src :=
+  let rest := (t.drop 1).toString
+  if t.startsWith "v" then rest.toInt?.map Src.val
+  else if t.startsWith "s" then rest.toNat?.map Src.slot
+  else none
+
+def parseReg (n : Nat) (t : String) : Option Nat :=
+  match t.toNat? with
+  | some r => if r < n then some r else none
+  | none => none
+
+def parseFwd (t : String) : Option Bool :=
+  if t = "fwd" then some true else if t = "inp" then some false else none
+
+inductive Cmd where
+  | reset
+  | endHist
+  | op (o : Op)
+  | cmp (r s : Nat)
+  | obs (r : Nat)
+  | readChars (count : Nat) (xs : List Int)
+
+def parseCmd (toks : List String) : Option Cmd :=
+  match toks with
+  | ["reset"] => some .reset
+  | ["end"] => some .endHist
+  | ["ctor", r, "default"] => do let r ← parseReg NV r; pure (.op (.ctor r .dflt))
+  | ["ctor", r, "count", n, x] => do let r ← parseReg NV r; let n ← n.toNat?; let x ← x.toInt?; pure (.op (.ctor r (.count n x)))
+  | ["ctor", r, "range", f, l] => do let r ← parseReg NV r; let f ← parseFwd f; let l ← parseIntList l; pure (.op (.ctor r (.range l f)))
+  | ["ctor", r, "il", l] => do let r ← parseReg NV r; let l ← parseIntList l; pure (.op (.ctor r (.il l)))
+  | ["ctor", r, "move", s] => do let r ← parseReg NV r; let s ← parseReg NV s; pure (.op (.ctorMove r s))
+  | ["ctor", r, "buf", b] => do let r ← parseReg NV r; let b ← parseReg NB b; pure (.op (.ctorBuf r b))
+  | ["push", r, s] => do let r ← parseReg NV r; let s ← parseSrc s; pure (.op (.v r (.pushBack s)))
+  | ["pop", r] => do let r ← parseReg NV r; pure (.op (.v r .popBack))
+  | ["ins1", r, p, s] => do let r ← parseReg NV r; let p ← p.toNat?; let s ← parseSrc s; pure (.op (.v r (.insert1 p s)))
+  | ["insn", r, p, n, s] => do let r ← parseReg NV r; let p ← p.toNat?; let n ← n.toNat?; let s ← parseSrc s; pure (.op (.v r (.insertN p n s)))
+  | ["insr", r, p, f, l] => do let r ← parseReg NV r; let p ← p.toNat?; let f ← parseFwd f; let l ← parseIntList l; pure (.op (.v r (.insertRange p l f)))
+  | ["era1", r, p] => do let r ← parseReg NV r; let p ← p.toNat?; pure (.op (.v r (.erase1 p)))
+  | ["erar", r, a, b] => do let r ← parseReg NV r; let a ← a.toNat?; let b ← b.toNat?; pure (.op (.v r (.eraseR a b)))
+  | ["resize", r, n, s] => do let r ← parseReg NV r; let n ← n.toNat?; let s ← parseSrc s; pure (.op (.v r (.resize n s)))
+  | ["reserve", r, n] => do let r ← parseReg NV r; let n ← n.toNat?; pure (.op (.v r (.reserve n)))
+  | ["shrink", r] => do let r ← parseReg NV r; pure (.op (.v r .shrink))
+  | ["clear", r] => do let r ← parseReg NV r; pure (.op (.v r .clear))
+  | ["swap", r, s] => do let r ← parseReg NV r; let s ← parseReg NV s; pure (.op (.swap r s))
+  | ["massign", r, s] => do let r ← parseReg NV r; let s ← parseReg NV s; pure (.op (.moveAssign r s))
+  | ["cmp", r, s] => do let r ← parseReg NV r; let s ← parseReg NV s; pure (.cmp r s)
+  | ["obs", r] => do let r ← parseReg NV r; pure (.obs r)
+  | ["bctor", b, n] => do let b ← parseReg NB b; let n ← n.toNat?; pure (.op (.bctor b n))
+  | ["bresize", b, n] => do let b ← parseReg NB b; let n ← n.toNat?; pure (.op (.b b (.resize n)))
+  | ["bfill", b, l] => do let b ← parseReg NB b; let l ← parseIntList l; pure (.op (.b b (.fillWritten l)))
+  | ["bappend", b, n, l] => do let b ← parseReg NB b; let n ← n.toNat?; let l ← parseIntList l; pure (.op (.b b (.append n l)))
+  | ["bappendopt", b, n, l] => do
+    let b ← parseReg NB b; let n ← n.toNat?
+    if l = "none" then pure (.op (.b b (.appendOpt n none)))
+    else do let l ← parseIntList l; pure (.op (.b b (.appendOpt n (some l))))
+  | ["bread", b, n, l] => do let b ← parseReg NB b; let n ← n.toNat?; let l ← parseIntList l; pure (.op (.bread b n l))
+  | ["bmovector", b, c] => do let b ← parseReg NB b; let c ← parseReg NB c; pure (.op (.bctorMove b c))
+  | ["bswap", b, c] => do let b ← parseReg NB b; let c ← parseReg NB c; pure (.op (.bswap b c))
+  | ["bmassign", b, c] => do let b ← parseReg NB b; let c ← parseReg NB c; pure (.op (.bmoveAssign b c))
+  | ["readchars", n, l] => do let n ← n.toNat?; let l ← parseIntList l; pure (.readChars n l)
+  | _ => none
+
+def showVec (h : Heap) (r : Nat) (v : RV) : String :=
+  match toList h v with
+  | .ok l => s!"v{r}={l.length}:{showList l} capok={b01 (decide (v.last ≤ v.cap))}"
+  | .error f => s!"v{r}=fault:{f.name}"
+
+def showBuf (h : Heap) (k : Nat) (b : Buf) : String :=
+  match Buf.readArea h b with
+  | .ok l => s!"b{k}={l.length}:{showList l} ws={b.writeSize} capok={b01 (decide (b.readEnd ≤ b.writeEnd ∧ b.writeEnd ≤ b.cap))}"
+  | .error f => s!"b{k}=fault:{f.name}"
+
+def showRet : Option Nat → String
+  | none => "ret=-"
+  | some n => s!"ret={n}"
+
+def tail (h : Heap) : String := s!"live={h.liveCount} std=ok alloc=ok"
+
+/-- which registers an operation touches (printed after it) -/
+def touched : Op → List Nat × List Nat
+  | .v r _ => ([r], [])
+  | .ctor r _ => ([r], [])
+  | .ctorMove r s => ([r, s], [])
+  | .ctorBuf r b => ([r], [b])
+  | .swap r s => ([r, s], [])
+  | .moveAssign r s => ([r, s], [])
+  | .bctor b _ => ([], [b])
+  | .bread b _ _ => ([], [b])
+  | .b k _ => ([], [k])
+  | .bctorMove b c => ([], [b, c])
+  | .bswap b c => ([], [b, c])
+  | .bmoveAssign b c => ([], [b, c])
+
+/-- "reallocated iff needed" for the single-vector operations -/
+def reok (old new : RV) : VOp → String
+  | .shrink => "-"
+  | .reserve n => b01 ((old.base != new.base) == decide (n > old.cap))
+  | _ => b01 ((old.base != new.base) == decide (new.last > old.cap))
+
+def runOp (st : St) (sst : Spec.SSt) (o : Op) : St × Spec.SSt × String :=
+  match Spec.sstep sst o with
+  | none => (st, sst, "invalid")
+  | some (sst', sret) =>
+    match step g st o with
+    | .error f => (st, sst, "fault:" ++ f.name)
+    | .ok (st', ret) =>
+      let (vs, bs) := touched o
+      let parts := vs.map (fun r => showVec st'.heap r (st'.vec r)) ++ bs.map (fun k => showBuf st'.heap k (st'.buf k))
+      let re := match o with
+        | .v r vo => " reok=" ++ reok (st.vec r) (st'.vec r) vo
+        | _ => ""
+      -- the specification's answer rides along: `spec=ok` iff model and List specification agree on everything printed
+      let specOk :=
+        ret == sret &&
+        vs.all (fun r => match toList st'.heap (st'.vec r) with | .ok l => l == sst'.vec r | .error _ => false) &&
+        bs.all (fun k => match Buf.readArea st'.heap (st'.buf k) with
+                         | .ok l => l == (sst'.buf k).1 && (st'.buf k).writeSize == (sst'.buf k).2
+                         | .error _ => false)
+      (st', sst', showRet ret ++ " " ++ " ".intercalate parts ++ re ++ " " ++ tail st'.heap ++ (if specOk then "" else " SPEC-MISMATCH"))
+
+def cmpLine (st : St) (r s : Nat) : String :=
+  let a := st.vec r; let b := st.vec s
+  match equalV st.heap a b, lessV st.heap a b, lessV st.heap b a with
+  | .ok e, .ok lt, .ok gt => s!"eq={b01 e} ne={b01 (!e)} lt={b01 lt} gt={b01 gt} le={b01 (!gt)} ge={b01 (!lt)}"
+  | _, _, _ => "fault"
+
+def obsLine (st : St) (r : Nat) : String :=
+  let v := st.vec r
+  match toList st.heap v with
+  | .error f => "fault:" ++ f.name
+  | .ok l =>
+    let fr := match l.head? with | some x => toString x | none => "-"
+    let bk := match l.getLast? with | some x => toString x | none => "-"
+    s!"empty={b01 (v.last == 0)} size={v.last} dist={v.last} front={fr} back={bk} idx={showList l}"
+
+def readCharsLine (count : Nat) (xs : List Int) : String :=
+  match readChars g Heap.empty xs count with
+  | .error f => "fault:" ++ f.name
+  | .ok (h, none) => "none" ++ (if h.liveCount == 0 then "" else " LEAK") ++ (if Spec.sreadChars xs count == none then "" else " SPEC-MISMATCH")
+  | .ok (h, some v) =>
+    match toList h v, deallocate h v with
+    | .ok l, .ok h' => s!"some {l.length}:{showList l} capok={b01 (decide (v.last ≤ v.cap))}" ++ (if h'.liveCount == 0 then "" else " LEAK") ++
+        (if Spec.sreadChars xs count == some l then "" else " SPEC-MISMATCH")
+    | _, _ => "fault"
+
+def handle (s : St × Spec.SSt) (toks : List String) : (St × Spec.SSt) × String :=
+  match parseCmd toks with
+  | none => (s, "bad-op")
+  | some .reset => ((St.init, Spec.SSt.init), "reset")
+  | some .endHist =>
+    match finish s.1 NV NB with
+    | .ok h => ((St.init, Spec.SSt.init), s!"end live={h.liveCount} alloc=ok")
+    | .error f => ((St.init, Spec.SSt.init), "end fault:" ++ f.name)
+  | some (.op o) => let (st', sst', line) := runOp s.1 s.2 o; ((st', sst'), line)
+  | some (.cmp r t) => (s, cmpLine s.1 r t)
+  | some (.obs r) => (s, obsLine s.1 r)
+  | some (.readChars n xs) => (s, readCharsLine n xs)
+
+def main : IO Unit := Proto.runState (St.init, Spec.SSt.init) handle
+
 end Fcppt.C07.Drv
